@@ -134,7 +134,7 @@ class Env:
             c.assume(fact)
         st.declare("cls", A(I))
         for f, kind in QFIELDS.values():
-            st.declare(f"{f}_val", A(R))
+            st.declare(f"{f}_val", A(R))          # SI magnitude (the raw value is derived: si / fac(unit))
             st.declare(f"{f}_unit", A(I))
             st.declare(f"{f}_none", A(B))
             st.declare(f"hlen_{f}", A(I))
@@ -203,8 +203,7 @@ class Env:
     # ---- SI views ---------------------------------------------------------------------------------------
     def si(self, f, j, state=None):
         st = state or self.state
-        kind = _kind_of_field(f)
-        return z3.Select(st[f"{f}_val"], j) * self.fac(kind, z3.Select(st[f"{f}_unit"], j))
+        return z3.Select(st[f"{f}_val"], j)
 
     def isnone(self, f, j, state=None):
         st = state or self.state
@@ -212,19 +211,19 @@ class Env:
 
     def J_si(self, j, state=None):
         st = state or self.state
-        return z3.Select(st["J_val"], j) * self.fac("InertiaMoment", z3.Select(st["J_unit"], j))
+        return z3.Select(st["J_val"], j)
 
     def Jeq_si(self, state=None):
         st = state or self.state
-        return st["Jeq_val"] * self.fac("InertiaMoment", st["Jeq_unit"])
+        return st["Jeq_val"]
 
     def cur_si(self, state=None):
         st = state or self.state
-        return st["cur_val"] * self.fac("Current", st["cur_unit"])
+        return st["cur_val"]
 
     def tlast_si(self, state=None):
         st = state or self.state
-        return st["tlast_val"] * self.fac("Time", st["tlast_unit"])
+        return st["tlast_val"]
 
     def unchanged(self, f, old, lo=0, hi=None, name="ju"):
         """forall j in [lo,hi): field f at j is the same object as in `old`"""
@@ -255,7 +254,7 @@ class Env:
 
     def store_quantity(self, f, j, q):
         st = self.state
-        st[f"{f}_val"] = z3.Store(st[f"{f}_val"], j, sym.term_of(q.value))
+        st[f"{f}_val"] = z3.Store(st[f"{f}_val"], j, sym.term_of(q.si()))
         st[f"{f}_unit"] = z3.Store(st[f"{f}_unit"], j, unit_idx(q.kind, q.unit))
         st[f"{f}_none"] = z3.Store(st[f"{f}_none"], j, z3.BoolVal(False))
 
@@ -413,8 +412,7 @@ class ExternalTorque(_Callable):
         if c.decide(env.ext_ok(self.i, t, p, s)):
             u = SymUnit("Torque", idx=env.ext_unit(self.i, t, p, s))
             c.assume(u.factor() > 0)
-            si = env.ext_fn(self.i, t, p, s)
-            return SymQ("Torque", SymNum(si / u.factor(), "float"), u)
+            return SymQ("Torque", SymNum(env.ext_fn(self.i, t, p, s), "float"), u)
         return NotATorque()
 
 
@@ -528,7 +526,7 @@ class ElemRef:
             self._require_class({0}, name)
             if not (isinstance(value, SymQ) and value.kind == "Current"):
                 raise TypeError("Parameter 'electric_current' must be an instance of 'Current'.")
-            st["cur_val"] = sym.term_of(value.value)
+            st["cur_val"] = sym.term_of(value.si())
             st["cur_unit"] = unit_idx("Current", value.unit)
             st["cur_none"] = z3.BoolVal(False)
             return
